@@ -136,6 +136,16 @@ class K(Val):
         return f"K({self.v!r})"
 
 
+class Slc(Val):
+    """a slice object built with slice(lo, hi, step): used as an index it is the slice"""
+
+    def __init__(self, lo, hi, step):
+        self.lo, self.hi, self.step = lo, hi, step
+
+    def __repr__(self):
+        return f"Slc({self.lo!r}, {self.hi!r}, {self.step!r})"
+
+
 class Phi(Val):
     def __init__(self, cond, a, b):
         self.cond, self.a, self.b = cond, a, b
@@ -1134,7 +1144,11 @@ class Interp:
             elif isinstance(x, ast.Constant) and x.value is None:
                 out.append(("newaxis",))
             else:
-                out.append(self.ev(x, env))
+                v = self.ev(x, env)
+                if isinstance(v, Slc):
+                    out.append(("slice", v.lo, v.hi, v.step))
+                else:
+                    out.append(v)
         return out
 
     def ev(self, e, env):
@@ -1599,6 +1613,10 @@ class Interp:
                 if st == P.c(1):
                     v = self.fresh("v")
                     return Sq(("for", v, lo, hi, ("int", P.s(v))))
+                if st == P.c(-1):
+                    # descending: position v = 0 .. lo-hi-1 holds lo - v
+                    v = self.fresh("v")
+                    return Sq(("for", v, P.c(0), lo - hi, ("int", lo - P.s(v))))
             return Sq(("opq", "range with a step"))
         if fn in TRANSPARENT and args:
             a = args[0]
@@ -1684,6 +1702,11 @@ class Interp:
             return E(e)
         if fn == "dict" and not args:
             return Dct(kw)
+        if fn == "slice" and 1 <= len(args) <= 3 and not kw:
+            a = [None if isinstance(x, K) and x.v is None else x for x in args]
+            if len(a) == 1:
+                return Slc(None, a[0], None)
+            return Slc(a[0], a[1], a[2] if len(a) == 3 else None)
         if fn == "numpy.take" and len(args) >= 2 and isinstance(args[0], Vec):
             ax = kw.get("axis") or (args[2] if len(args) > 2 else None)
             axp = self.topoly(ax) if ax is not None else None
